@@ -12,6 +12,7 @@
 
 #include "function.h"
 
+#include "asmdef.h"
 #include "asmerr.h"
 #include "asmpars.h"
 #include "bpemu.h"
@@ -119,12 +120,21 @@ static void FuncSTRLEN(TempResult* pResult, TempResult const* pArgs, unsigned Ar
 /* Parser aufrufen */
 
 static void FuncVAL(TempResult* pResult, TempResult const* pArgs, unsigned ArgCnt) {
-    String Tmp;
+    static LongInt NestLevel = 0;
+    String         Tmp;
 
     UNUSED(ArgCnt);
 
+    /* the string may itself call VAL (x set "val(x)"): same limit as for macros and user-defined functions */
+
+    if ((NestMax > 0) && (NestLevel >= NestMax)) {
+        WrError(ErrNum_RekMacro);
+        return;
+    }
     as_nonz_dynstr_to_c_str(Tmp, &pArgs[0].Contents.str, sizeof(Tmp));
+    NestLevel++;
     EvalExpression(Tmp, pResult);
+    NestLevel--;
 }
 
 static void FuncTOUPPER(TempResult* pResult, TempResult const* pArgs, unsigned ArgCnt) {
